@@ -117,6 +117,20 @@ def select_matrix(steps=1, engine=0, bases=("leaf", "sel", "chain", "join")):
                     if ok:
                         yield (f"{dname}/{base}/[{state}]/" + ">".join(names), (UNIVERSE, leaves, p))
         if steps == 1:
+            # a calculated column as the only carrier of a column the projection hid: calculation, projection hiding its
+            # input, deduplication, projection dropping the calculated column (the last projection must not be folded
+            # into the DISTINCT)
+            for expr in (("neg", R(C)), ("add", R(C), R(A))):
+                for keep in ((A, D), (B, A, D)):
+                    for tail in ((A,), (B, A)):
+                        if not set(tail) <= set(keep):
+                            continue
+                        for mid in (None, ("sort", ((R(A), True),)), ("slice", 0, 4)):
+                            p = ("dedup", ("proj", ("calc", ("leaf", 0), D, expr), keep))
+                            if mid is not None:
+                                p = _apply(mid, p)
+                            p = ("proj", p, tail)
+                            yield (f"{dname}/calc-carrier/{mid[0] if mid else 'plain'}", (UNIVERSE, leaves, p))
             # a SELECT level whose sort is keyed on a column its projection hides, then a calculation re-using that tag
             for terms in (((R(C), True), (R(A), True), (R(B), True)), ((R(C), False), (R(A), True), (R(B), False))):
                 for sl in (None, (0, 2), (1, 3)):
